@@ -447,7 +447,31 @@ def compile_graph(nodes, sup, graphs_raw, mode="MCS", prune=True, **kw):
     from rex.graph import Graph
 
     sg = dict(MCS=const.Supergraph.MCS, GENERATIONAL=const.Supergraph.GENERATIONAL, TOPOLOGICAL=const.Supergraph.TOPOLOGICAL)[mode]
-    return Graph(nodes=nodes, supervisor=sup, graphs_raw=graphs_raw, supergraph=sg, prune=prune, progress_bar=False, **kw)
+    try:
+        return Graph(nodes=nodes, supervisor=sup, graphs_raw=graphs_raw, supergraph=sg, prune=prune, progress_bar=False, **kw)
+    except Exception as ex:
+        import traceback
+
+        if type(ex).__name__ == "NetworkXUnfeasible" and not prune:
+            # to_connected_graph (prune=False) attaches a vertex that ends exactly when a supervisor step starts to that
+            # step even if it *depends* on it (zero delays, exact tie) -> cycle. Observed on the unchanged tree; see DESIGN.
+            raise CompileUnsupported(f"prune=False with zero-delay ties: {ex}")
+        if not isinstance(ex, AssertionError):
+            raise
+
+        tb = traceback.format_exc()
+        if "site-packages/supergraph" in tb.splitlines()[-3] or "site-packages/supergraph" in "".join(tb.splitlines()[-4:]):
+            # an internal assertion of the external supergraph library (observed: MCS with prune=False, "Should be a leaf node.")
+            raise CompileUnsupported(f"supergraph library assertion: {ex}")
+        raise
+
+
+class CompileUnsupported(Exception):
+    pass
+
+
+def _unused():
+    pass
 
 
 def timings_to_dict(timings):
@@ -552,3 +576,97 @@ def probe_recompute(rec, w):
         ns.append(s)
         ys.append((7 * s + rec["seq"][i]) % M)
     return ns, ys
+
+
+# ------------------------------------------------------------------------------------------------
+# schedule instances for the Lean checker (Driver "sched.check" / "sched.replay")
+
+
+def _bits(x):
+    import struct
+
+    x = float(x)
+    if x < 0:
+        x = 0.0
+    return struct.unpack("<Q", struct.pack("<d", x))[0]
+
+
+def sched_instance(g, names, sup, prune, e):
+    """One episode of a compiled rex.graph.Graph as an instance for Rex.Sched.checkSchedule."""
+    import numpy as onp
+
+    kid = {n: i for i, n in enumerate(names)}
+    wg = g._windowed_graphs
+    verts = []
+    for n in names:
+        v = wg.vertices[n]
+        seqs = onp.asarray(v.seq)[e]
+        srcs = sorted(v.windows.keys())
+        for k, s in enumerate(seqs):
+            if int(s) < 0:
+                continue
+            wins = [[kid[src], [int(x) for x in onp.asarray(v.windows[src].seq)[e][k]], [_bits(x) for x in onp.asarray(v.windows[src].ts_sent)[e][k]],
+                     [_bits(x) for x in onp.asarray(v.windows[src].ts_recv)[e][k]]] for src in srcs]
+            verts.append(dict(kind=kid[n], seq=int(s), ts_start=_bits(onp.asarray(v.ts_start)[e][k]), ts_end=_bits(onp.asarray(v.ts_end)[e][k]), wins=wins))
+    cells = []
+    slots = g.timings.slots
+    gens = max(int(s.generation) for s in slots.values()) + 1
+    P = None
+    for si, (sname, s) in enumerate(slots.items()):
+        run = onp.asarray(s.run)[e]
+        P = len(run)
+        srcs = sorted(s.windows.keys())
+        for p in range(P):
+            r = bool(run[p])
+            wins = [[kid[src], [int(x) for x in onp.asarray(s.windows[src].seq)[e][p]], [_bits(x) for x in onp.asarray(s.windows[src].ts_sent)[e][p]],
+                     [_bits(x) for x in onp.asarray(s.windows[src].ts_recv)[e][p]]] for src in srcs] if r else []
+            cells.append(dict(slot=si, kind=kid[s.kind], gen=int(s.generation), part=p, run=r, seq=int(onp.asarray(s.seq)[e][p]) if r else -1,
+                              ts_start=_bits(onp.asarray(s.ts_start)[e][p]) if r else 0, ts_end=_bits(onp.asarray(s.ts_end)[e][p]) if r else 0, wins=wins))
+    return dict(sup=kid[sup], parts=P, gens=gens, prune=bool(prune), verts=verts, cells=cells)
+
+
+def buffer_sizes_list(g, names, extra_padding=0, sizes=None):
+    sizes = sizes if sizes is not None else g._buffer_sizes
+    out = []
+    for n in names:
+        s = sizes.get(n, [])
+        s = [s] if isinstance(s, int) else list(s)
+        out.append(int(max(s) + extra_padding) if len(s) > 0 else max(1, extra_padding))
+    return out
+
+
+def rand_spec_equal_rates(rng):
+    """all nodes at one rate, communication delays around one period: producers and consumers share generations and
+    the automatically sized buffers are tight"""
+    n = rng.randint(3, 4)
+    rate = rng.choice([5, 10, 20])
+    per = 1.0 / rate
+    nodes = [dict(name=f"n{i}", rate=rate, comp=dict(kind="det", loc=round(rng.choice([0.05, 0.1, 0.2]) * per, 4), scale=0.0), advance=False, scheduling="FREQUENCY") for i in range(n)]
+    sup_i = n - 1
+    have = set()
+    for i in range(n - 1):
+        have.add((i, sup_i))
+    for _ in range(rng.randint(1, 3)):
+        i, j = rng.randrange(n - 1), rng.randrange(n - 1)
+        if i != j:
+            have.add((i, j))
+            have.add((j, i))
+    conns = []
+    for (i, j) in sorted(have):
+        conns.append(dict(src=f"n{i}", dst=f"n{j}", blocking=False, skip=bool(i > j), jitter="LATEST", window=rng.choice([1, 1, 2]),
+                          comm=dict(kind="det", loc=round(rng.choice([0.85, 1.0, 1.15]) * per, 4), scale=0.0)))
+    return dict(nodes=nodes, conns=conns, supervisor=f"n{sup_i}", seed=rng.randrange(1 << 30))
+
+
+def rand_spec_high_ratio(rng):
+    """a fast node against a slow supervisor: more than 10 slots of one kind per partition"""
+    sup_rate = rng.choice([2, 3])
+    fast = rng.choice([24, 30, 36])
+    nodes = [dict(name="n0", rate=fast, comp=dict(kind="det", loc=round(0.2 / fast, 4), scale=0.0), advance=False, scheduling="FREQUENCY"),
+             dict(name="n1", rate=rng.choice([6, 12]), comp=dict(kind="det", loc=0.01, scale=0.0), advance=False, scheduling="FREQUENCY"),
+             dict(name="n2", rate=sup_rate, comp=dict(kind="det", loc=0.01, scale=0.0), advance=False, scheduling="FREQUENCY")]
+    conns = [dict(src="n0", dst="n1", blocking=False, skip=False, jitter="LATEST", window=rng.choice([1, 2, 3]), comm=dict(kind="det", loc=0.004, scale=0.0)),
+             dict(src="n1", dst="n2", blocking=False, skip=False, jitter="LATEST", window=2, comm=dict(kind="det", loc=0.004, scale=0.0)),
+             dict(src="n0", dst="n2", blocking=False, skip=False, jitter="LATEST", window=rng.choice([1, 4]), comm=dict(kind="det", loc=0.004, scale=0.0)),
+             dict(src="n2", dst="n0", blocking=False, skip=True, jitter="LATEST", window=1, comm=dict(kind="det", loc=0.004, scale=0.0))]
+    return dict(nodes=nodes, conns=conns, supervisor="n2", seed=rng.randrange(1 << 30))
